@@ -1219,7 +1219,14 @@ class DirectiveParser(Parser):
         initial_pos = self.pos
         try:
             self.match_value(Identifier, "ifdef")
-            identifier = self.match_type(Identifier)
+            try:
+                identifier = self.match_type(Identifier)
+            except ParseError:
+                # Without a macro name the directive cannot be evaluated,
+                # but it still opens a group that its #endif closes.
+                expr = self.tokens[self.pos :]
+                self.pos = len(self.tokens)
+                return IfNode(self.tokens, expr)
 
             # Wrap expression in "defined()" call
             prefix = [
@@ -1244,7 +1251,14 @@ class DirectiveParser(Parser):
         initial_pos = self.pos
         try:
             self.match_value(Identifier, "ifndef")
-            identifier = self.match_type(Identifier)
+            try:
+                identifier = self.match_type(Identifier)
+            except ParseError:
+                # Without a macro name the directive cannot be evaluated,
+                # but it still opens a group that its #endif closes.
+                expr = self.tokens[self.pos :]
+                self.pos = len(self.tokens)
+                return IfNode(self.tokens, expr)
 
             # Wrap expression in "!defined()" call
             prefix = [
